@@ -1134,3 +1134,124 @@ func init() {
 			}
 		}})
 }
+
+func init() {
+	register(&Rule{ID: "DET.order", Min: 3, Text: "what replicas are told does not depend on Go's map order: in the document model (packages crdt, operations, json, document, change, presence) a slice that a function returns and that was filled while ranging over a map is sorted before it is returned, or its elements are (GC) pairs that the callers only register by key, or the function is one of the two hash-table node accessors (RHT.Nodes, ElementRHT.Nodes: unordered by contract, listed with their consumers) — anything else ends up in an operation or is consumed positionally: the restore spans of a text deletion travel in the reverse operation, and the peer that purged the tombstones rebuilds the runs in the order it is given, while the author merely revives them in place",
+		Run: func(x *Ctx) {
+			isSort := func(c ssa.CallInstruction) bool {
+				o := prog.CallObj(c)
+				if o == nil || o.Pkg() == nil {
+					if f := c.Common().StaticCallee(); f != nil && f.Origin() != nil && f.Origin().Pkg != nil {
+						return strings.HasSuffix(f.Origin().Pkg.Pkg.Path(), "slices") && strings.HasPrefix(f.Origin().Name(), "Sort")
+					}
+					return false
+				}
+				p := o.Pkg().Path()
+				return (p == "sort" || p == "slices") && (strings.HasPrefix(o.Name(), "Sort") || o.Name() == "Strings" || o.Name() == "Slice" || o.Name() == "SliceStable" || o.Name() == "Ints")
+			}
+			gcPair := x.P.Named(crdtPkg + ".GCPair")
+			// accessors that hand out the nodes of a hash table: unordered by contract
+			unordered := map[string]string{
+				"(*" + crdtPkg + ".RHT).Nodes":        "the attribute table's node set; consumers are the marshal functions (sorted: DET.map), the snapshot encoder (decoded into a map again), DeepCopy and GC (by key)",
+				"(*" + crdtPkg + ".ElementRHT).Nodes": "the object's member node set; consumers are the snapshot encoder (decoded into a map again), DeepCopy, and GC (by key)",
+			}
+			n := 0
+			for _, fn := range x.P.FuncsIn(crdtPkg, opsPkg, "pkg/document/json", docPkg, changePkg, "pkg/document/presence", "pkg/document/presence/inner") {
+				if len(fn.Blocks) == 0 || fn.Parent() != nil {
+					continue
+				}
+				if o := fn.Origin(); o != nil && o != fn {
+					continue
+				}
+				lname := strings.ToLower(fn.Name())
+				if strings.Contains(lname, "marshal") {
+					continue // DET.map
+				}
+				i := 0
+				loops := prog.Loops(fn)
+				for _, b := range fn.Blocks {
+					for _, ins := range b.Instrs {
+						rg, ok := ins.(*ssa.Range)
+						if !ok {
+							continue
+						}
+						if _, isMap := rg.X.Type().Underlying().(*types.Map); !isMap {
+							continue
+						}
+						// the loop of this range: the one whose header holds its Next
+						var body map[*ssa.BasicBlock]bool
+						for _, r := range *rg.Referrers() {
+							if nx, isN := r.(*ssa.Next); isN {
+								for _, l := range loops {
+									if l.Header == nx.Block() {
+										body = l.Body
+									}
+								}
+							}
+						}
+						fed := func(v ssa.Value) bool {
+							return prog.DependsOn(v, func(w ssa.Value) bool {
+								nx, isN := w.(*ssa.Next)
+								return isN && nx.Iter == ssa.Value(rg)
+							})
+						}
+						for _, ap := range builtinCalls(fn, "append") {
+							if body == nil || !body[ap.Block()] {
+								continue // filled from a (sorted) copy of the keys, not in map order
+							}
+							isFed := false
+							for _, a := range ap.Call.Args[1:] {
+								if fed(a) {
+									isFed = true
+								}
+							}
+							if !isFed {
+								continue
+							}
+							// does the collected slice reach a return value?
+							returned := false
+							for _, r := range prog.Returns(fn) {
+								for ri := range r.Results {
+									if prog.DependsOn(prog.ReturnValue(r, ri), func(w ssa.Value) bool { return w == ssa.Value(ap) }) {
+										if _, isSl := r.Results[ri].Type().Underlying().(*types.Slice); isSl {
+											returned = true
+										}
+									}
+								}
+							}
+							if !returned {
+								continue
+							}
+							i++
+							n++
+							k := fmt.Sprintf("func=%s map-range#%d returned-slice-is-ordered", prog.FnName(fn), i)
+							if sl, isSl := ap.Type().Underlying().(*types.Slice); isSl && gcPair != nil && isNamed(sl.Elem(), gcPair) {
+								x.C.Add(obTrivial(x.id(), k, x.pos(ap), "GC pairs: the callers register them by key, order is irrelevant"))
+								continue
+							}
+							if why, ok := unordered[prog.FnName(fn)]; ok {
+								x.C.Add(obTrivial(x.id(), k, x.pos(ap), "unordered by contract: "+why))
+								continue
+							}
+							sorted := false
+							for _, c := range prog.CallsIn(fn) {
+								if !isSort(c) {
+									continue
+								}
+								for _, a := range c.Common().Args {
+									if prog.DependsOn(a, func(w ssa.Value) bool { return w == ssa.Value(ap) }) {
+										sorted = true
+									}
+								}
+							}
+							x.check(sorted, k, x.pos(ap), "sorted before it is returned",
+								"the returned slice is filled in Go's random map order and never sorted: its order differs from run to run, and whoever consumes it positionally (the restore spans carried by the reverse operation of a text deletion; the peer that purged the tombstones rebuilds the runs in that order) gives different results on different replicas")
+						}
+					}
+				}
+			}
+			if n < 3 {
+				x.C.Vacuous(x.id()+" slices collected from maps and returned", n, 3)
+			}
+		}})
+}
